@@ -421,6 +421,21 @@ fn gen_env(r: &mut Rng, discovered: &[(String, Vec<String>)]) -> Env {
             if r.chance(1, 3) {
                 a.push("--test".to_string());
             }
+            if r.chance(1, 2) {
+                a.push(format!("--diagnostic-width={}", r.pick(&[40usize, 72, 80, 100, 140, 200])));
+            }
+            if r.chance(1, 3) {
+                a.push(format!("--color={}", r.pick(&["always", "never", "auto"])));
+            }
+            if r.chance(1, 3) {
+                a.extend(["--cap-lints".to_string(), r.pick(&["allow", "warn"]).to_string()]);
+            }
+            if r.chance(1, 3) {
+                a.extend(["--target".to_string(), r.pick(&["x86_64-unknown-linux-gnu", "wasm32-unknown-unknown"]).to_string()]);
+            }
+            if r.chance(1, 3) {
+                a.extend(["--emit=dep-info,metadata,link".to_string(), "-C".to_string(), "debuginfo=2".to_string(), "-L".to_string(), "dependency=/work/target/debug/deps".to_string()]);
+            }
             a
         } else {
             vec![]
